@@ -72,6 +72,9 @@ pub enum Partition {
     Cuts(Vec<u16>),
     /// explicit absolute cut positions (used by exhaustive single-cut enumerations)
     At(Vec<u32>),
+    /// the inner partition with an additional EMPTY call after every piece (a caller polling
+    /// with no new bytes while a chunk / message is incomplete is legal)
+    Polled(Box<Partition>),
 }
 
 impl Partition {
@@ -89,6 +92,7 @@ impl Partition {
                 .map(|x| ((*x as u64 * (len as u64 + 1)) >> 16) as usize)
                 .collect(),
             Partition::At(v) => v.iter().map(|x| (*x as usize).min(len)).collect(),
+            Partition::Polled(inner) => return inner.ends(len),
         };
         cuts.sort_unstable();
         cuts.dedup();
@@ -99,10 +103,14 @@ impl Partition {
 
     /// Splits `data` into the pieces of this partition (an empty stream yields one empty piece).
     pub fn pieces<'a>(&self, data: &'a [u8]) -> Vec<&'a [u8]> {
+        let polled = matches!(self, Partition::Polled(_));
         let mut out = Vec::new();
         let mut start = 0;
         for e in self.ends(data.len()) {
             out.push(&data[start..e]);
+            if polled {
+                out.push(&data[e..e]);
+            }
             start = e;
         }
         out
@@ -110,13 +118,13 @@ impl Partition {
 }
 
 pub fn partition() -> BoxedStrategy<Partition> {
-    prop_oneof![
+    let plain = prop_oneof![
         2 => Just(Partition::Whole),
         2 => Just(Partition::ByteByByte),
         2 => (1u16..40).prop_map(Partition::Every),
         5 => proptest::collection::vec(any::<u16>(), 1..12).prop_map(Partition::Cuts),
-    ]
-    .boxed()
+    ];
+    prop_oneof![5 => plain.clone(), 1 => plain.prop_map(|p| Partition::Polled(Box::new(p)))].boxed()
 }
 
 /// Deterministic payload bytes for (seed, len): position-dependent so misplaced, duplicated or
